@@ -299,6 +299,7 @@ type envClause struct {
 	okObj  types.Object
 	fields map[*types.Var]ast.Node // fields assigned in the body
 	helper *FuncInfo               // package helper wrapping the lookup (nil: os.LookupEnv / os.Getenv directly)
+	errObj types.Object            // helper that also parses: (value, ok, err) -- the error variable of the clause
 }
 
 func c20Table(p *Prog, r *Report) {
@@ -387,15 +388,22 @@ func c20Table(p *Prog, r *Report) {
 					return true
 				}
 				cl = &envClause{fn: fi, ifs: ifs, envVar: name, envObj: objOf(info, as.Lhs[0]), fields: map[*types.Var]ast.Node{}, helper: h}
-				if len(as.Lhs) == 2 {
+				if len(as.Lhs) >= 2 {
 					cl.okObj = objOf(info, as.Lhs[1])
+				}
+				if len(as.Lhs) == 3 {
+					cl.errObj = objOf(info, as.Lhs[2])
 				}
 			}
 			if !okc {
 				r.Viol("C20.b", fi.Key+"#lookup", p.pos(c), "environment variable name is not a constant")
 				return true
 			}
-			ast.Inspect(ifs.Body, func(y ast.Node) bool {
+			var scope ast.Node = ifs.Body
+			if cl.errObj != nil {
+				scope = ifs // if v, ok, err := h(NAME); err != nil {...} else if ok { field = v }
+			}
+			ast.Inspect(scope, func(y ast.Node) bool {
 				if a, ok := y.(*ast.AssignStmt); ok {
 					for _, l := range a.Lhs {
 						if sel, ok := l.(*ast.SelectorExpr); ok {
@@ -440,7 +448,26 @@ func c20Table(p *Prog, r *Report) {
 		// env clause
 		cls := byField[l.field]
 		if len(cls) == 0 {
-			r.Viol("C20.b", cons+"/env", "", "no os.LookupEnv clause assigns this setting: the environment cannot override it")
+			// assigned somewhere in the package from a value that is not a recognised clause (a table of options
+			// with setter closures driven by one lookup loop): not decided; never assigned: no override exists
+			assignedAt := ""
+			for _, fi := range envFuncs {
+				ast.Inspect(fi.Decl.Body, func(x ast.Node) bool {
+					if a, ok := x.(*ast.AssignStmt); ok {
+						for _, lh := range a.Lhs {
+							if sel, ok := lh.(*ast.SelectorExpr); ok && info.Uses[sel.Sel] == l.field {
+								assignedAt = p.pos(a)
+							}
+						}
+					}
+					return true
+				})
+			}
+			if assignedAt != "" {
+				r.Undecided("C20.b", cons+"/env", assignedAt, "the setting is assigned outside an `if v, ok := os.LookupEnv(NAME); ...` clause: this form of environment handling is not one the rule follows")
+			} else {
+				r.Viol("C20.b", cons+"/env", "", "no os.LookupEnv clause assigns this setting: the environment cannot override it")
+			}
 			table = append(table, l)
 			continue
 		}
@@ -530,7 +557,10 @@ func c20Table(p *Prog, r *Report) {
 // isEnvLookupHelper: func(name string) (string[, bool]) whose body looks its parameter up in the environment.
 func isEnvLookupHelper(p *Prog, h *FuncInfo) bool {
 	sig := h.Sig()
-	if sig.Params().Len() != 1 || sig.Results().Len() < 1 || sig.Results().Len() > 2 {
+	if sig.Params().Len() != 1 || sig.Results().Len() < 1 || sig.Results().Len() > 3 {
+		return false
+	}
+	if sig.Results().Len() == 3 && !isErrorType(sig.Results().At(2).Type()) {
 		return false
 	}
 	info := h.Pkg.TypesInfo
@@ -547,8 +577,111 @@ func isEnvLookupHelper(p *Prog, h *FuncInfo) bool {
 	return found
 }
 
+// c20ExecClause runs one environment clause (its if statement, helpers of the package included) on the abstract
+// environment state (present, empty): external parsers succeed with an opaque value. It reports whether the
+// setting was assigned.
+func c20ExecClause(p *Prog, cl *envClause, field string, present, empty bool) (assigned bool, err error) {
+	text := strVal("x")
+	if empty {
+		text = strVal("")
+	}
+	old := &Val{Tag: "old"}
+	st := &Val{Fields: map[string]*Val{field: old}}
+	env := &Env{P: p, Pkg: cl.fn.Pkg, Vars: map[types.Object]*Val{}}
+	if cl.fn.Decl.Recv != nil && len(cl.fn.Decl.Recv.List) == 1 && len(cl.fn.Decl.Recv.List[0].Names) == 1 {
+		env.Vars[cl.fn.Pkg.TypesInfo.Defs[cl.fn.Decl.Recv.List[0].Names[0]]] = &Val{Ptr: st}
+	}
+	var multi func(e *Env, c *ast.CallExpr) ([]*Val, bool)
+	hook := func(e *Env, x ast.Expr) (*Val, bool) {
+		c, ok := x.(*ast.CallExpr)
+		if !ok {
+			return nil, false
+		}
+		ci := e.Pkg.TypesInfo
+		if isFunc(ci, c, "os", "Getenv") {
+			return text, true
+		}
+		if tv, ok := ci.Types[c.Fun]; ok && tv.IsType() && len(c.Args) == 1 {
+			return e.eval(c.Args[0]), true // a conversion keeps the abstract value
+		}
+		if h := p.staticCallee(e.Pkg, c); h == nil || h.Pkg != cl.fn.Pkg {
+			if t, ok := ci.Types[c]; ok {
+				if _, isTuple := t.Type.(*types.Tuple); !isTuple {
+					return &Val{Tag: "derived"}, true
+				}
+			}
+		}
+		return nil, false
+	}
+	multi = func(e *Env, c *ast.CallExpr) ([]*Val, bool) {
+		ci := e.Pkg.TypesInfo
+		if isFunc(ci, c, "os", "LookupEnv") {
+			return []*Val{text, boolVal(present)}, true
+		}
+		if h := p.staticCallee(e.Pkg, c); h != nil && h.Pkg == cl.fn.Pkg && h.Decl != nil && h.Decl.Body != nil {
+			he := e.child(h.Pkg)
+			args := argExprs(c, h)
+			for i, po := range paramObjs(h) {
+				if po != nil && args[i] != nil {
+					he.Vars[po] = e.eval(args[i])
+				}
+			}
+			ret, _ := he.execBlock(h.Decl.Body.List)
+			return ret, ret != nil
+		}
+		if t, ok := ci.Types[c].Type.(*types.Tuple); ok && t.Len() == 2 && isErrorType(t.At(1).Type()) {
+			return []*Val{{Tag: "parsed"}, {Nil: true}}, true
+		}
+		return nil, false
+	}
+	env.Hook, env.Multi = hook, multi
+	func() {
+		defer func() {
+			if rec := recover(); rec != nil {
+				if ee, ok := rec.(evalErr); ok {
+					err = ee
+					return
+				}
+				panic(rec)
+			}
+		}()
+		env.execBlock([]ast.Stmt{cl.ifs})
+	}()
+	return st.Fields[field] != old, err
+}
+
+// signChangingConversion: an integer conversion that changes signedness or narrows (a parsed -1 becomes 2^64-1).
+func signChangingConversion(info *types.Info, e ast.Expr) string {
+	c, ok := ast.Unparen(e).(*ast.CallExpr)
+	if !ok || len(c.Args) != 1 {
+		return ""
+	}
+	tv, ok := info.Types[c.Fun]
+	if !ok || !tv.IsType() {
+		return ""
+	}
+	to, ok1 := tv.Type.Underlying().(*types.Basic)
+	at, ok2 := info.Types[c.Args[0]]
+	if !ok1 || !ok2 || at.Value != nil {
+		return ""
+	}
+	from, ok3 := at.Type.Underlying().(*types.Basic)
+	if !ok3 || to.Info()&types.IsInteger == 0 || from.Info()&types.IsInteger == 0 {
+		return ""
+	}
+	size := func(b *types.Basic) int64 { return types.SizesFor("gc", "amd64").Sizeof(b) }
+	if (to.Info()&types.IsUnsigned != 0) != (from.Info()&types.IsUnsigned != 0) || size(to) < size(from) {
+		return from.Name() + " -> " + to.Name()
+	}
+	return ""
+}
+
 func c20Clause(p *Prog, r *Report, cons string, l *cfgLeaf, cl *envClause) {
 	info := cl.fn.Pkg.TypesInfo
+	if cl.errObj != nil {
+		c20ParsingHelperClause(p, r, cons, l, cl)
+		return
+	}
 	// guard truth table over (present, empty)
 	good := true
 	detail := ""
@@ -825,4 +958,71 @@ func isNilCompare(info *types.Info, e ast.Expr) ast.Expr {
 		return ast.Unparen(be.Y)
 	}
 	return nil
+}
+
+// c20ParsingHelperClause: the clause form "if v, ok, err := envX(NAME); err != nil { return wrap } else if ok
+// { setting = v }" with a package helper that looks the variable up and parses it.
+func c20ParsingHelperClause(p *Prog, r *Report, cons string, l *cfgLeaf, cl *envClause) {
+	info := cl.fn.Pkg.TypesInfo
+	good, detail := true, ""
+	for _, present := range []bool{true, false} {
+		for _, empty := range []bool{true, false} {
+			if !present && !empty {
+				continue
+			}
+			got, err := c20ExecClause(p, cl, l.field.Name(), present, empty)
+			if err != nil {
+				r.Undecided("C20.b", cons+"/guard", p.pos(cl.ifs), fmt.Sprintf("clause not evaluable: %v", err))
+				return
+			}
+			if want := present && !empty; got != want {
+				good = false
+				detail = fmt.Sprintf("the setting is assigned=%v for present=%v empty=%v; it must be taken from the environment iff the variable is set and non-empty", got, present, empty)
+			}
+		}
+	}
+	r.Check(good, "C20.b", cons+"/guard", p.pos(cl.ifs), "assigned iff present && non-empty (clause and helper evaluated)", detail)
+	as := cl.fields[l.field].(*ast.AssignStmt)
+	derives := false
+	for _, rhs := range as.Rhs {
+		if usesObj(info, rhs, cl.envObj) {
+			derives = true
+		}
+		if conv := signChangingConversion(info, rhs); conv != "" {
+			r.Viol("C20.b", cons+"/conversion", p.pos(rhs), "the parsed value is converted "+conv+" on its way into the setting: a negative or too large value is not reported as a parse error but silently becomes another number")
+		}
+	}
+	r.Check(derives, "C20.b", cons+"/value", p.pos(as), "assigned from the parsed value of the variable", "the value stored into the setting does not depend on the environment variable")
+	// the value the helper returns is the parse of the looked-up text, and parse errors come back
+	hinfo := cl.helper.Pkg.TypesInfo
+	hf := p.FlatOf(cl.helper)
+	parsers := 0
+	for _, n := range hf.Nodes {
+		if n.Ast == nil {
+			continue
+		}
+		for _, c := range callsIn(n.Ast, false) {
+			bs := hf.bindOf(n, c)
+			if bs.Kind == "none" || isFunc(hinfo, c, "fmt", "Errorf") {
+				continue
+			}
+			parsers++
+			l.Parser = types.ExprString(c.Fun)
+			hf.SiteConsumed(r, "C20.b", cons+"/parse-error "+l.Parser, cl.helper, bs, flowOpts{})
+		}
+	}
+	if parsers == 0 {
+		r.Undecided("C20.b", cons+"/parse-error", p.pos(cl.helper.Decl), "no parsing call found in "+cl.helper.Key)
+	}
+	f := p.FlatOf(cl.fn)
+	for _, n := range f.Nodes {
+		if n.Ast != cl.ifs.Init {
+			continue
+		}
+		for _, c := range callsIn(n.Ast, false) {
+			if bs := f.bindOf(n, c); bs.Kind != "none" {
+				f.SiteConsumed(r, "C20.b", cons+"/parse-error "+types.ExprString(c.Fun), cl.fn, bs, flowOpts{})
+			}
+		}
+	}
 }
